@@ -101,15 +101,38 @@ def make_case(i, rng, tier):
         o = model.decode(model.STREAM, data)
         if not o.ok:
             raise HarnessError("capability preamble is not well-formed: %s" % (o.problem,))
-    tasks = [common.spec("stream", model.STREAM, data, None, None, strict=True, source="counting")]
+    strict, label_extra = True, ""
+    if rng.random() < 0.1:
+        # warn mode: out-of-range values that leave every boundary and every layout decision where it was - the tag of a
+        # session-less command of a later exchange (such a command has no sessions, so its response is never expected
+        # encrypted, whatever an earlier command asked for), values of ordinary constrained leaves.  The stream and the
+        # messages are decoded in warn mode; the warnings are part of what must be equal
+        from .. import faults as F
+        d2 = data
+        starts = {a: j for j, a in enumerate(bounds[:-1])}
+        tags = [(idx, it) for idx, it in enumerate(o.items) if it[0] == "P" and it[4] in starts and starts[it[4]] >= 2 and
+                metas[starts[it[4]]]["kind"] == "command" and it[3] == 0x8001]
+        n_f = 0
+        if tags and rng.random() < 0.7:
+            idx, it = rng.choice(tags)
+            d3 = F.put(d2, it, rng.choice((0x00C1, 0x00C4, 0x8000, 0x8003, 0x0001)))
+            if d3 is not None:
+                d2, n_f = d3, n_f + 1
+        for _ in range(rng.randint(0, 2)):
+            f = F.fault_value(d2, o, rng, value_only=True)
+            if f and not f[1].get("path", "").endswith(("tag", "commandCode", "responseCode")) and f[1].get("cls") not in ("selector",):
+                d2, n_f = f[0], n_f + 1
+        if n_f:
+            data, strict, label_extra = d2, False, ":warn-values"
+    tasks = [common.spec("stream", model.STREAM, data, None, None, strict=strict, source="counting")]
     msgs = []
     for j, (a, b) in enumerate(zip(bounds, bounds[1:])):
         m = metas[j]
         msgs.append({"kind": m["kind"], "cc": m["cc"], "enc": m["enc"], "start": a, "end": b})
-        tasks.append(common.spec("m%d" % j, "Command" if m["kind"] == "command" else "Response", data[a:b], m["cc"], m["enc"], strict=True))
+        tasks.append(common.spec("m%d" % j, "Command" if m["kind"] == "command" else "Response", data[a:b], m["cc"], m["enc"], strict=strict))
     tasks += common.enc_sweep_specs(rng, g, rng.choice((0, 0, 1, 2)))
     tasks, sched = common.perturb(rng, tasks, p_by=0.2)
-    return {"input": {"label": "stream:%d" % len(trees), "msgs": msgs, "later": rng.randrange(64) if rng.random() < 0.05 else None,
+    return {"input": {"label": "stream:%d%s" % (len(trees), label_extra), "msgs": msgs, "later": rng.randrange(64) if rng.random() < 0.05 else None,
                       "threads": rng.randrange(1 << 30) if rng.random() < 0.004 else None},
             "tasks": tasks, "schedule": sched}
 
